@@ -41,6 +41,28 @@ func (p *parkWriter) Write(b []byte) (int, error) {
 	return p.rec.Write(b)
 }
 
+// failWriter is a client that hangs up: from the failAt-th Write on every
+// Write fails (fault injection at the ResponseWriter seam).
+type failWriter struct {
+	rec    *httptest.ResponseRecorder
+	failAt int
+	writes int
+	failed bool
+}
+
+func (f *failWriter) Header() http.Header { return f.rec.Header() }
+func (f *failWriter) WriteHeader(c int)   { f.rec.WriteHeader(c) }
+func (f *failWriter) Write(b []byte) (int, error) {
+	f.writes++
+	if f.writes >= f.failAt {
+		f.failed = true
+		return 0, errClientGone
+	}
+	return f.rec.Write(b)
+}
+
+var errClientGone = fmt.Errorf("write tcp: broken pipe (client hung up)")
+
 type pendingReq struct {
 	st        Step
 	w         *parkWriter
@@ -142,15 +164,26 @@ func runPlan(t *testing.T, p *Plan, c *checker) {
 				}
 				e.until = time.Now().Add(time.Duration(e.minutes)*time.Minute + 30*time.Second)
 				reg = append(reg, e)
-				switch e.creator {
-				case 0:
-					spawnA(e)
-				case 1:
-					spawnB(e)
-				case 2:
-					spawnC(e)
-				default:
-					spawnD(e)
+				doSpawn := func() {
+					e.parent = selfID()
+					switch e.creator {
+					case 0:
+						spawnA(e)
+					case 1:
+						spawnB(e)
+					case 2:
+						spawnC(e)
+					default:
+						spawnD(e)
+					}
+				}
+				if st.Via {
+					hd := make(chan struct{})
+					go func() { doSpawn(); close(hd) }()
+					<-hd
+					c.probes["spawn:via-helper-goroutine"]++
+				} else {
+					doSpawn()
 				}
 				<-e.started
 				c.probes["spawn:"+e.kind]++
@@ -221,6 +254,20 @@ func runPlan(t *testing.T, p *Plan, c *checker) {
 					webstack.SnapshotHandler(rec, req)
 				}()
 				c.checkResponseReg(st.Method, st.Query, rec.Code, rec.Header().Get("Content-Type"), rec.Body.String(), queryValid(st.Method, st.Query), pre, truncated, settled())
+			case "failreq":
+				synctest.Wait()
+				fw := &failWriter{rec: httptest.NewRecorder(), failAt: st.FailAt}
+				func() {
+					defer func() {
+						if r := recover(); r != nil {
+							c.fail("panic", "handler panicked when the client hung up during %s ?%s: %v", st.Method, st.Query, r)
+						}
+					}()
+					webstack.SnapshotHandler(fw, httptest.NewRequest(st.Method, "/debug?"+st.Query, nil))
+				}()
+				if fw.failed {
+					c.probes["request-client-hung-up"]++
+				}
 			case "startreq":
 				synctest.Wait()
 				pre := len(headers(fullStack()))
